@@ -41,3 +41,20 @@ Theorem C06_pass_exact_partial : forall s pp G b0, RepInv s pp G b0 -> NoCollisi
   beq (board s) b0 \/ (2 <= length (filter (fun x => (z_from_piece_board (board s) (negb (side s)) 0 =? hpos x)%N) G))%nat.
 Proof. exact withheld_pass_exact. Qed.
 Print Assumptions C06_pass_exact_partial.
+
+(* exactness for a withheld fourth step, under the same no-collision hypothesis: it is withheld only at step 3 of a
+   capture-free turn and only if the result is the turn's starting board or already occurred twice *)
+Theorem C06_step_exact_partial : forall s pp G b0 i d, RepInv s pp G b0 ->
+  let nb := board (take_action s (Move i d)) in
+  NoCollisionAt s G b0 nb ->
+  In (Move i d) (valid_actions_no_rep s) -> ~ In (Move i d) (valid_actions s) ->
+  step_of pp = 3 /\ trapped pp = false /\
+  (beq nb b0 \/ (2 <= length (filter (fun x => (z_from_piece_board nb (negb (side s)) 0 =? hpos x)%N) G))%nat).
+Proof. exact withheld_step_exact. Qed.
+Print Assumptions C06_step_exact_partial.
+
+(* after a capture earlier in the turn no fourth step is withheld (no earlier position can recur: C06_forget) *)
+Theorem C06_capture_turn : forall s pp i d, PlayInv s pp -> trapped pp = true ->
+  In (Move i d) (valid_actions_no_rep s) -> In (Move i d) (valid_actions s).
+Proof. exact capture_turn_never_withheld. Qed.
+Print Assumptions C06_capture_turn.
